@@ -139,7 +139,7 @@ def gen_config(rng, case, force=None, allow_collision=False):
     cfg = {"procs": rng.choice([1, 2, 2, 3, 4]), "bundle": rng.choice([None, "primary", "daily"]),
            "output": "fileset" if rng.random() < 0.25 else "memory",
            "skip": False, "broken": None, "put_delay": rng.choice([0, 0, 0.002]),
-           "alive_delay": rng.choice([0, 0.003, 0.01, 0.03])}
+           "alive_delay": rng.choice([0, 0.003, 0.01, 0.03]), "search": rng.random() < 0.5}
     if rng.random() < 0.3:
         # race stress: workers slower than the parent (each put arrives while the parent idles in its
         # `running` filter, whose is_alive() calls are slowed): the last worker's final put + exit fall
@@ -272,12 +272,16 @@ def run_real(case, cfg, sets, root):
     signal.setitimer(signal.ITIMER_REAL, CALL_TIMEOUT)
     res = {"results": [], "error": None, "out": out, "start": start, "end": end}
     try:
-        gen = Collocator().collocate_filesets(
-            sets, start=start, end=end, processes=cfg["procs"], bundle=cfg["bundle"],
-            skip_file_errors=cfg["skip"], output=out,
-            max_interval=dt.timedelta(microseconds=case["mi_us"]), max_distance=case["dist_km"])
-        for item in gen:
-            res["results"].append(item)
+        kw = dict(start=start, end=end, processes=cfg["procs"], bundle=cfg["bundle"], skip_file_errors=cfg["skip"],
+                  max_interval=dt.timedelta(microseconds=case["mi_us"]), max_distance=case["dist_km"])
+        if out is not None and cfg.get("search"):
+            # Collocations.search: collocate_filesets(output=self) consumed internally; what it
+            # yielded is what the parent got from the queue with a result that is not None
+            out.search(sets, **kw)
+            res["results"] = [it[2] for it in W.GET_LOG if it[2] is not None]
+        else:
+            for item in Collocator().collocate_filesets(sets, output=out, **kw):
+                res["results"].append(item)
     except CallTimeout:
         res["error"] = "timeout"
         kill_children()
@@ -690,7 +694,7 @@ def main():
             run_corpus_case(ck, c, scratch, use_model)
         if use_model:
             parent_schedules(ck, ck.budget(150, 3000))
-        explore(ck, ck.budget(15, 110), 2 if ck.tier == "quick" else 6, scratch, use_model)
+        explore(ck, ck.budget(15, 80), 2 if ck.tier == "quick" else 5, scratch, use_model)
         if ck.broken() and not ck.violations:
             # failing-input search on the real code (oracle only) with the larger budget
             explore(ck, 60 if ck.tier == "quick" else 150, 4, scratch, use_model=False)
